@@ -27,8 +27,18 @@ pub fn build_ruleset(env: &J, rules: Vec<(String, Expr)>) -> Result<Built, Strin
         }
     }
     if let Some(ss) = env["syms"].as_array() {
-        for s in ss {
-            b = b.with_symbol(uncps(&s[0])?, from_model(&s[1])?);
+        // the first symbol through with_symbol, the others through one with_symbols call: both entry points
+        // must leave a table in which every registered name resolves (C10, C15)
+        let mut rest: Vec<(String, Value)> = Vec::new();
+        for (i, s) in ss.iter().enumerate() {
+            if i == 0 {
+                b = b.with_symbol(uncps(&s[0])?, from_model(&s[1])?);
+            } else {
+                rest.push((uncps(&s[0])?, from_model(&s[1])?));
+            }
+        }
+        if !rest.is_empty() {
+            b = b.with_symbols(Symbols::from(rest)).map_err(|e| format!("with_symbols: {e}"))?;
         }
     }
     Ok(Built { ruleset: b.build(), log })
